@@ -87,6 +87,9 @@ func WalkPostings(pl segment.PostingsList, freq, norm, locs bool) ([]XPosting, e
 			return nil, fmt.Errorf("iterator returned posting %d after nil", p.Number())
 		}
 	}
+	if err := it.Close(); err != nil {
+		return nil, err
+	}
 	return rv, nil
 }
 
@@ -195,6 +198,13 @@ func observe(seg segment.Segment, probe []string, fc Facets, lenientStored map[i
 			}
 			if ok || pl.Count() != 0 || len(ps) != 0 {
 				return nil, fmt.Errorf("absent term probed in field %q: Contains=%v Count=%d postings=%v", f, ok, pl.Count(), ps)
+			}
+			// callers are expected to close what they opened; closing must not reach into the segment
+			if err := it.Close(); err != nil {
+				return nil, err
+			}
+			if err := dict.Close(); err != nil {
+				return nil, err
 			}
 		}
 	}
